@@ -53,7 +53,8 @@ pub fn gen_case(seed: u64, idx: usize) -> Case {
         gp.pivot = 32;
         gp.max_run = 40;
     }
-    let lines = gen::generate(&mut rng, &gp);
+    let mut lines = gen::generate(&mut rng, &gp);
+    let _ = gen::add_byte_features(&mut lines, &mut rng);
     // delivery schedule: 1 byte .. 4 KiB, with Interrupted sprinkled in
     let style = rng.below(6);
     let n = rng.range(1, 12);
